@@ -247,7 +247,7 @@ Section Checked.
   Qed.
 End Checked.
 
-(* FINDING F23.  "A checked message whose bytes were altered is rejected" is FALSE for the
+(* FINDING F25.  "A checked message whose bytes were altered is rejected" is FALSE for the
    code as it is: the accumulator of the hash is m_checksum itself, which lies inside the body
    that is hashed last; with the real CRC32C step the word equal to the running value resets
    the register, so the result does not depend on the variable-length fields.  Witness: two
@@ -292,3 +292,17 @@ Definition deser_in_bounds (shape_wf : shape -> Prop) : Prop :=
 (* ser_roundtrip: serialize a value laid out in sender memory, copy the emitted iovecs into
    ANY fragmentation of the same flat byte string, deserialize: the walk of the result equals
    the walk of the original (contents of every field), up to pointer values. *)
+
+(* positive part of the checksum clause (hash uninterpreted): whenever the value recomputed
+   over the remaining iovec bytes and the body differs from the stored word, the message is
+   rejected — deserialize returns 0 *)
+Lemma checked_rejects_hash_mismatch hstep c sh m v t1 m1 v1 okc m2 :
+  sh_checked sh = true ->
+  ebc m v (sh_size sh) = Ok (t1, m1, v1) -> t1 <> 0 ->
+  validate_checksum hstep m1 v1 t1 (sh_size sh) = Ok (okc, m2) -> okc = false ->
+  exists st, deserialize hstep c sh m v = Ok (0, st).
+Proof.
+  intros Hc He Ht Hv Hk. unfold deserialize. rewrite He. cbn [bind].
+  destruct (t1 =? 0) eqn:E; [apply Z.eqb_eq in E; contradiction|].
+  rewrite Hc, Hv. cbn [bind]. subst okc. cbn [negb]. eauto.
+Qed.
